@@ -43,6 +43,10 @@ def pumped(n):
 
 
 def run(chk, replay=None):
+    # HTTPRequestParser.received transcribed (spec/ParserOps.tla): on the model, under every segmentation, a head that is
+    # not over within max_request_header_size is refused with 431 and the byte count never passes the limit unnoticed
+    from checks import parser_model
+    parser_model.model_check(chk, "C06")
     rng = random.Random(chk.seed)
     sent = fg.sentences() + fg.framing_variants()
     follow = fg.msg(target=b"/next", headers=[fg.HOST])
